@@ -204,6 +204,9 @@ func (e *Env) NewPeer(name string, cfg erpc.PeerConfig, plugins ...erpc.Plugin) 
 	if cfg.Network == "" {
 		cfg.Network = "tcp"
 	}
+	if cfg.DefaultBodyCodec == "" {
+		cfg.DefaultBodyCodec = "json" // importing thriftproto switches the process default to thrift
+	}
 	p := erpc.NewPeer(cfg, plugins...)
 	e.peers = append(e.peers, p)
 	e.Obs.peerNames[p] = name
@@ -243,7 +246,10 @@ func (e *Env) ServePair(a, b erpc.Peer, protoA, protoB erpc.ProtoFunc) (sa, sb e
 
 // CloseAll closes every peer created in this run (ignoring errors).
 func (e *Env) CloseAll() {
-	for _, p := range e.peers {
+	// reverse creation order: clients (created last) go first, so that a client with an unlimited
+	// redial budget is not left redialing a server that has already been closed
+	for i := len(e.peers) - 1; i >= 0; i-- {
+		p := e.peers[i]
 		func() {
 			defer func() { recover() }()
 			p.Close()
@@ -265,13 +271,13 @@ func (e *Env) Until(cond func() bool) {
 // CheckSettled must be called right after simrt.WaitQuiescent: every task that is still parked must be
 // waiting for network input (session readers, accept loops).  Anything else - a task parked on a mutex, a
 // wait-group, a map - is stuck for good, because nothing in the system can run any more.
-func (e *Env) CheckSettled(class string) {
+func (e *Env) CheckSettled(class string, info ...string) {
 	parked, native := e.Sched.Snapshot()
 	for _, p := range parked {
 		if strings.Contains(p, "@netread") || strings.Contains(p, "@accept") || strings.Contains(p, "@user") || strings.Contains(p, "@waitchan") {
 			continue
 		}
-		e.Fail(class, "task parked forever at quiescence: %s", p)
+		e.Fail(class, "task parked forever at quiescence: %s %s", p, strings.Join(info, " "))
 	}
 	_ = native
 }
